@@ -45,6 +45,7 @@ func checkC12(e *Env) {
 	runUntrusted(e, scope, func(f *ssa.Function) bool {
 		return strings.HasPrefix(load.FuncName(f), "internal/cbor.(*Decoder)")
 	}, nil)
+	iterationsIndependent(e, "ITER", e.fns("internal/cbor.(*Decoder).decodeOfType", "internal/cbor.(*Decoder).DecodeByteString", "internal/cbor.(*Decoder).DecodeTextString")...)
 	e.R.Floor("TABLE", 80)
 	e.R.Floor("GATE", 10)
 	e.R.Floor("U1", 1)
